@@ -202,7 +202,8 @@ def exec_panel(p, op):
     if n is None:
         p._rebuild()
         n = p.get_size()
-    h = sum(p.plyts) if p.plyts else p.plyt * len(p.stack)
+    # amplitude scale: the laminate thickness of the current definition (given by the caller when the object is being re-defined)
+    h = op.get('h') or (sum(p.plyts) if p.plyts else p.plyt * len(p.stack))
     if o == 'calc_k0':
         return p.calc_k0(silent=True)
     if o == 'calc_k0_placed':
@@ -315,6 +316,179 @@ def _panel_strategy(draw, tier='quick'):
     case['forces'] = [{'x': 0.5, 'y': 0.5, 'fx': 0., 'fy': 0., 'fz': round(draw(gen.fl(1., 50.)), 2), 'cte': draw(st.booleans())}]
     case['uniform_form'] = draw(st.booleans())
     case['ops'] = draw(st.lists(_panel_op(case['model']), min_size=1, max_size=8 if tier == 'quick' else 12))
+    return case
+
+
+# =============================================================== Panel re-defined between calls
+SETTERS = ('set_a', 'set_b', 'set_r', 'set_alphadeg', 'set_mn', 'set_angle', 'set_thickness', 'set_offset', 'set_mu', 'set_N', 'set_flag',
+           'set_material', 'set_force', 'set_aero')
+
+
+def apply_set(p, case, op):
+    """one re-definition through the public attributes, applied to the live object `p` and mirrored in the definition dict `case`."""
+    o, v = op['op'], op['value']
+    L = case['lam']
+    if o == 'set_a':
+        case['a'] = round(case['a0'] * (1. + 0.3 * v), 6)
+        p.a = case['a']
+    elif o == 'set_b':
+        case['b'] = round(case['b0'] * (1. + 0.3 * v), 6)
+        p.b = case['b']
+    elif o == 'set_r':
+        case['r'] = round(case['r0'] * (1.5 + v), 6)
+        p.r = case['r']
+    elif o == 'set_alphadeg':
+        case['alphadeg'] = round(10. + 8. * v, 4)
+        p.alphadeg = case['alphadeg']
+    elif o == 'set_mn':
+        case['m'], case['n'] = op['m'], op['n']
+        p.m, p.n = op['m'], op['n']
+    elif o == 'set_angle':
+        k = op['ply'] % len(L['stack'])
+        L['stack'][k] = round(L['stack'][k] + 40. * v + 5., 3)
+        if op['in_place']:
+            p.stack[k] = L['stack'][k]
+        else:
+            p.stack = list(L['stack'])
+    elif o == 'set_thickness':
+        f = round(1.6 + 0.5 * v, 3)
+        if L.get('uniform') and case.get('uniform_form'):
+            L['plyts'] = [t * f for t in L['plyts']]
+            p.plyt = L['plyts'][0]
+        else:
+            k = op['ply'] % len(L['plyts'])
+            L['plyts'][k] = L['plyts'][k] * f
+            L['uniform'] = False
+            if op['in_place']:
+                p.plyts[k] = L['plyts'][k]
+            else:
+                p.plyts = list(L['plyts'])
+    elif o == 'set_offset':
+        L['offset'] = round(v * 0.5 * float(sum(L['plyts'])), 9)
+        p.offset = L['offset']
+    elif o == 'set_mu':
+        case['mu'] = round(1000. * (1.5 + v), 3)
+        p.mu = case['mu']
+    elif o == 'set_N':
+        case['N'] = [round(-30. * (1.2 + v), 3), round(7. * v, 3), round(-4. * v, 3)]
+        p.Nxx, p.Nyy, p.Nxy = case['N']
+    elif o == 'set_flag':
+        nm = op['flag']
+        case['flags'][nm] = 1. - case['flags'][nm] if case['flags'][nm] in (0., 1.) else 1.
+        setattr(p, nm, case['flags'][nm])
+    elif o == 'set_material':
+        f = round(1.7 + 0.6 * v, 3)
+        L['laminaprops'] = [[q[0] * f] + list(q[1:]) for q in L['laminaprops']]
+        if L.get('uniform') and case.get('uniform_form'):
+            p.laminaprop = tuple(L['laminaprops'][0])
+        else:
+            p.laminaprops = [tuple(q) for q in L['laminaprops']]
+    elif o == 'set_force':
+        case['forces'][0]['fz'] = round(20. * (1.3 + v), 3)
+        lst = p.forces if case['forces'][0]['cte'] else p.forces_inc
+        if op['in_place']:
+            lst[0][4] = case['forces'][0]['fz']
+        else:
+            lst[0] = [lst[0][0], lst[0][1], 0., 0., case['forces'][0]['fz']]
+    elif o == 'set_aero':
+        case['beta'], case['gamma'] = round(300. * (1.2 + v), 3), round(4. * v, 3)
+        p.beta, p.gamma = case['beta'], case['gamma']
+    else:
+        raise ValueError(o)
+
+
+def build_panel_abs(case):
+    """as build_panel, the point force at a fixed absolute position (it stays inside the domain for every re-definition drawn)."""
+    p = pkg.make_panel(case)
+    p.Nxx, p.Nyy, p.Nxy = case['N']
+    p.beta, p.gamma, p.aeromu, p.flow = case['beta'], case['gamma'], case['aeromu'], case['flow']
+    for f in case['forces']:
+        p.add_force(0.35 * case['a0'], 0.35 * case['b0'], f['fx'], f['fy'], f['fz'], cte=f['cte'])
+    p.num_eigvalues = 3
+    return p
+
+
+def check_redefine(case, ctx):
+    """the same Panel object is re-defined through its public attributes between evaluations (a parametric study); every evaluation must
+    equal the first call on a fresh object that was given the current definition from the start."""
+    kind = 'Panel:' + case['model']
+    name = 'redefined[%s]' % kind
+    cur = copy.deepcopy(case)
+    with package(name + '.build'):
+        shared = build_panel_abs(cur)
+    ops = case['ops']
+    nset = sum(1 for o in ops if o['op'] in SETTERS)
+    evals_after_set = 0
+    seen_set = False
+    ctx.label('kind:' + kind, 'redefinitions:%d' % min(nset, 4))
+    hist = []
+    for step, op in enumerate(ops):
+        if op['op'] in SETTERS:
+            with package(name + '.' + op['op']):
+                apply_set(shared, cur, op)
+            seen_set = True
+            ctx.label('op:' + op['op'])
+            hist.append(op['op'])
+            continue
+        if seen_set:
+            evals_after_set += 1
+        ctx.label('op:' + op['op'])
+        tol = 1e-9 if op['op'] in ('lb', 'freq', 'static') else 0.
+        with package(name + '.build'):
+            twin = build_panel_abs(copy.deepcopy(cur))
+        args_t = dict(copy.deepcopy(op), h=float(sum(cur['lam']['plyts'])))
+        st_t, res_t = _run(lambda: exec_panel(twin, args_t), name)
+        if st_t == 'error':
+            raise Violation('%s.first-call[%s]' % (name, op['op']), 'on a freshly defined object: %s' % res_t)
+        args_s = dict(copy.deepcopy(op), h=float(sum(cur['lam']['plyts'])))
+        st_s, res_s = _run(lambda: exec_panel(shared, args_s), name)
+        if st_s == 'error':
+            raise Violation('%s.after-history[%s]' % (name, op['op']), 'step %d (after %s): %s' % (step, hist, res_s))
+        if st_s != st_t:
+            raise Violation('%s.outcome[%s]' % (name, op['op']), 'step %d after %s: %s on the re-defined object but %s on a fresh one (%s / %s)' % (
+                step, hist, st_s, st_t, res_s if st_s != 'ok' else '', res_t if st_t != 'ok' else ''))
+        if st_s == 'ok':
+            ok, why = _same(res_s, res_t, tol)
+            ctx.subchecks += 1
+            if not ok:
+                raise Violation('%s.differs[%s]' % (name, op['op']), 'step %d after %s: %s' % (step, hist, why))
+        hist.append(op['op'])
+    ctx.nontrivial = evals_after_set >= 1 and nset >= 1
+
+
+@st.composite
+def _set_op(draw, case):
+    model = case['model']
+    names = ['set_a', 'set_b', 'set_mn', 'set_angle', 'set_thickness', 'set_offset', 'set_mu', 'set_N', 'set_flag', 'set_material',
+             'set_force', 'set_aero']
+    if model in ('cpanel', 'kpanel'):
+        names.append('set_r')
+    if model == 'kpanel':
+        names.append('set_alphadeg')
+    o = draw(st.sampled_from(names))
+    op = {'op': o, 'value': round(draw(gen.fl(-1., 1.)), 3), 'in_place': draw(st.booleans()), 'ply': draw(st.integers(0, 5))}
+    if o == 'set_mn':
+        op['m'], op['n'] = draw(st.integers(3, 5)), draw(st.integers(3, 5))
+    if o == 'set_flag':
+        op['flag'] = draw(st.sampled_from(['w1rx', 'w2rx', 'w1ry', 'w2ry', 'u1tx', 'v2ty', 'u2tx', 'v1ty']))
+    return op
+
+
+@st.composite
+def _redefine_strategy(draw, tier='quick'):
+    case = draw(_panel_strategy(tier))
+    case['a0'], case['b0'], case['r0'] = case['a'], case['b'], case.get('r')
+    model = case['model']
+    ops = []
+    for _ in range(draw(st.integers(2, 7 if tier == 'quick' else 10))):
+        if draw(st.integers(0, 2)) == 0:
+            ops.append(draw(_set_op(case)))
+        else:
+            ops.append(draw(_panel_op(model)))
+    # make sure at least one re-definition is followed by an evaluation
+    ops.insert(draw(st.integers(0, max(0, len(ops) - 1))), draw(_set_op(case)))
+    ops.append(draw(_panel_op(model)))
+    case['ops'] = ops
     return case
 
 
@@ -564,6 +738,11 @@ SUBS = [
         shards_quick=16),
     Sub('bay', _bay_strategy, check_bay, quick=64, thorough=1200,
         rule='sequences over StiffPanelBay calls (k0,kG0,kM,kA,fext,get_size,uvw_skin,uvw_stiffener) for bays with 0..2 stiffeners', shards_quick=16),
+    Sub('panel_redefine', _redefine_strategy, check_redefine, quick=160, thorough=3000,
+        rule='one Panel object re-defined between evaluations through its public attributes (a, b, r, alphadeg, m/n, a ply angle or '
+             'thickness - list re-assigned or edited in place -, offset, mu, loads, one edge flag, material, a point force, aerodynamic '
+             'coefficients), 3..9 steps: each evaluation equals the first call on a fresh object given the current definition; '
+             'non-trivial = at least one evaluation after a re-definition', shards_quick=16),
     Sub('conecyl', _cc_strategy, check_cc, quick=64, thorough=1200,
         rule='sequences over ConeCyl calls (k0,fext,lb,static,fields, fint/kT with drawn integration thread counts and rules) for 12 models',
         shards_quick=16),
